@@ -21,23 +21,144 @@ func init() {
 	})
 }
 
-func (c *Ctx) foreachItemClosure() (parent, clo *ssa.Function, goI *ssa.Go, mc *ssa.MakeClosure) {
-	parent = c.Fn("(*foreach.runningStep).executeSubWorkflows")
-	if parent == nil {
-		return
+// itemGo describes the per-item goroutine of the loop step: the `go` statement inside the loop over the items and its
+// body, which may be a closure (values reach it through captured variables) or a method/function (values reach it
+// through parameters). up() maps a value used in the body to the value on the spawner's side, so that the rules below
+// do not depend on which of the two forms the code uses.
+type itemGo struct {
+	parent, body *ssa.Function
+	goI          *ssa.Go
+}
+
+func (c *Ctx) foreachItemGo() *itemGo {
+	top := c.Fn("(*foreach.runningStep).executeSubWorkflows")
+	if top == nil {
+		return nil
 	}
-	eachInstr(parent, func(r instrRef) {
-		if g, ok := r.I.(*ssa.Go); ok {
-			if m, ok := g.Call.Value.(*ssa.MakeClosure); ok {
-				goI, mc = g, m
-				clo = m.Fn.(*ssa.Function)
+	var out *itemGo
+	for _, parent := range c.logicalBody(top) {
+		eachInstr(parent, func(r instrRef) {
+			g, ok := r.I.(*ssa.Go)
+			if !ok {
+				return
 			}
-		}
-	})
-	if clo == nil {
+			inLoop := false
+			for _, li := range loopsOf(parent) {
+				if li.Blocks[g.Block()] {
+					inLoop = true
+				}
+			}
+			if !inLoop {
+				return
+			}
+			for _, body := range c.CG().Callees(g) {
+				runs := false
+				for _, f := range c.logicalBody(body) {
+					eachInstr(f, func(r2 instrRef) {
+						if cc := callCommon(r2.I); cc != nil && cc.IsInvoke() && cc.Method.Name() == "Execute" && strings.HasSuffix(cc.Value.Type().String(), "workflow.ExecutableWorkflow") {
+							runs = true
+						}
+					})
+				}
+				if runs {
+					out = &itemGo{parent: parent, body: body, goI: g}
+				}
+			}
+		})
+	}
+	if out == nil {
 		c.unresolved("per-item goroutine in foreach.executeSubWorkflows")
 	}
-	return
+	return out
+}
+
+// norm strips per-iteration copies on the spawner's side: a load of a cell with a single store is that stored value.
+func normCopy(v ssa.Value) ssa.Value {
+	for i := 0; i < 6; i++ {
+		u, ok := v.(*ssa.UnOp)
+		if !ok || u.Op != token.MUL {
+			return v
+		}
+		al, ok := u.X.(*ssa.Alloc)
+		if !ok {
+			return v
+		}
+		s := soleStore(al)
+		if s == nil {
+			return v
+		}
+		v = s
+	}
+	return v
+}
+
+// up: the spawner-side value behind a value used in the goroutine body (or in a closure nested in it).
+func (ig *itemGo) up(v ssa.Value) ssa.Value {
+	for i := 0; i < 8; i++ {
+		switch x := v.(type) {
+		case *ssa.Parameter:
+			arg, ok := paramBinding[x]
+			if !ok {
+				return v
+			}
+			v = arg
+			continue
+		case *ssa.FreeVar:
+			cell := capturedCell(x)
+			if cell == nil {
+				return v
+			}
+			v = cell
+			continue
+		case *ssa.UnOp:
+			if x.Op != token.MUL {
+				return v
+			}
+			switch y := x.X.(type) {
+			case *ssa.FreeVar:
+				cell := capturedCell(y)
+				if cell == nil {
+					return v
+				}
+				if s := soleStore(cell); s != nil {
+					v = s
+					continue
+				}
+				return v
+			case *ssa.Alloc:
+				if s := soleStore(y); s != nil {
+					v = s
+					continue
+				}
+				return v
+			}
+			return v
+		case *ssa.MakeInterface:
+			v = x.X
+			continue
+		case *ssa.ChangeType:
+			v = x.X
+			continue
+		}
+		return v
+	}
+	return v
+}
+
+func (ig *itemGo) fns(c *Ctx) []*ssa.Function {
+	var out []*ssa.Function
+	for _, f := range c.logicalBody(ig.body) {
+		out = append(out, fnAndAnons(f)...)
+	}
+	seen := map[*ssa.Function]bool{}
+	var uniq []*ssa.Function
+	for _, f := range out {
+		if !seen[f] {
+			seen[f] = true
+			uniq = append(uniq, f)
+		}
+	}
+	return uniq
 }
 
 func freeVarNamed(fn *ssa.Function, name string) *ssa.FreeVar {
@@ -49,238 +170,154 @@ func freeVarNamed(fn *ssa.Function, name string) *ssa.FreeVar {
 	return nil
 }
 
-func bindingOf(mc *ssa.MakeClosure, fv *ssa.FreeVar) ssa.Value {
-	clo := mc.Fn.(*ssa.Function)
-	for i, f := range clo.FreeVars {
-		if f == fv {
-			return mc.Bindings[i]
-		}
-	}
-	return nil
-}
-
-func loadOfFreeVar(v ssa.Value, fv *ssa.FreeVar) bool {
-	u, ok := v.(*ssa.UnOp)
-	return ok && u.Op == token.MUL && u.X == ssa.Value(fv)
-}
-
 // C13.R1 results are index-addressed.
 func c13R1(c *Ctx) {
 	const rule = "C13.R1"
-	c.explain("C13.R1 in the per-item goroutine every store into the results slice and the errors map is indexed by the captured loop index; that index cell and the captured item cell are filled in the same loop iteration from the range index and the element at that index; the argument of Execute is the captured item; the slice is made with len(items) and never appended to")
-	parent, clo, _, mc := c.foreachItemClosure()
-	if clo == nil {
+	c.explain("C13.R1 in the per-item goroutine (closure or method) every store into the shared results slice and errors map is indexed by the index of the very loop iteration whose element is the argument of Execute; the slice is made with len(items) and never appended to")
+	ig := c.foreachItemGo()
+	if ig == nil {
 		return
 	}
+	body := ig.body
 	// the Execute call and its item argument
 	var exec *ssa.Call
-	eachInstr(clo, func(r instrRef) {
-		if call, ok := r.I.(*ssa.Call); ok && call.Common().IsInvoke() && call.Common().Method.Name() == "Execute" {
-			exec = call
-		}
-	})
+	for _, f := range ig.fns(c) {
+		eachInstr(f, func(r instrRef) {
+			if call, ok := r.I.(*ssa.Call); ok && call.Common().IsInvoke() && call.Common().Method.Name() == "Execute" {
+				exec = call
+			}
+		})
+	}
 	if exec == nil {
 		c.unresolved("sub-run Execute call in the per-item goroutine")
 		return
 	}
-	var itemFV *ssa.FreeVar
-	for _, fv := range clo.FreeVars {
-		if loadOfFreeVar(exec.Common().Args[1], fv) {
-			itemFV = fv
+	// the item: element of the ranged slice at the loop index
+	item := ig.up(exec.Common().Args[1])
+	var iv ssa.Value
+	if u, ok := item.(*ssa.UnOp); ok && u.Op == token.MUL {
+		if ia, ok := u.X.(*ssa.IndexAddr); ok {
+			iv = normCopy(ia.Index)
 		}
 	}
-	// index free variable: the one used as index of the stores
-	var idxFV *ssa.FreeVar
+	c.verdict(iv != nil, rule, "executes-own-item", c.instrPos(exec), "the sub-run's input is the element of the item list at the iteration's index", "the sub-run's input is not the element at this iteration's index ("+valueOrigin(item)+")")
+	// stores into shared containers
 	nStores := 0
 	okIdx := true
-	var outFV, errFV *ssa.FreeVar
-	eachInstr(clo, func(r instrRef) {
-		var idx ssa.Value
-		var container ssa.Value
-		switch x := r.I.(type) {
-		case *ssa.Store:
-			ia, ok := x.Addr.(*ssa.IndexAddr)
-			if !ok {
+	var outSlice ssa.Value
+	for _, f := range ig.fns(c) {
+		eachInstr(f, func(r instrRef) {
+			var idx, container ssa.Value
+			switch x := r.I.(type) {
+			case *ssa.Store:
+				ia, ok := x.Addr.(*ssa.IndexAddr)
+				if !ok {
+					return
+				}
+				idx, container = ia.Index, ia.X
+			case *ssa.MapUpdate:
+				idx, container = x.Key, x.Map
+			default:
 				return
 			}
-			idx, container = ia.Index, ia.X
-		case *ssa.MapUpdate:
-			idx, container = x.Key, x.Map
-		default:
-			return
-		}
-		var cfv *ssa.FreeVar
-		for _, fv := range clo.FreeVars {
-			if loadOfFreeVar(container, fv) {
-				cfv = fv
-			}
-		}
-		if cfv == nil {
-			return
-		}
-		nStores++
-		if _, isMap := cfv.Type().(*types.Pointer).Elem().Underlying().(*types.Map); isMap {
-			errFV = cfv
-		} else {
-			outFV = cfv
-		}
-		found := false
-		for _, fv := range clo.FreeVars {
-			if loadOfFreeVar(idx, fv) {
-				if idxFV == nil || idxFV == fv {
-					idxFV = fv
-					found = true
+			shared := ig.up(container)
+			switch shared.(type) {
+			case *ssa.MakeSlice:
+				if shared.(ssa.Instruction).Parent() != ig.parent {
+					return
 				}
+				outSlice = shared
+			case *ssa.MakeMap:
+				if shared.(ssa.Instruction).Parent() != ig.parent {
+					return
+				}
+			default:
+				return
 			}
-		}
-		if !found {
-			okIdx = false
-		}
-	})
-	// the shared result containers are never reassigned by the item goroutines (no append / replacement)
-	reassigned := ""
-	for _, fv := range clo.FreeVars {
-		el := fv.Type().(*types.Pointer).Elem().Underlying()
-		_, isSlice := el.(*types.Slice)
-		_, isMap := el.(*types.Map)
-		if !isSlice && !isMap {
-			continue
-		}
-		if isSlice && outFV == nil {
-			outFV = fv
-		}
-		eachInstr(clo, func(r instrRef) {
-			if st, ok := r.I.(*ssa.Store); ok && st.Addr == ssa.Value(fv) {
-				reassigned = fv.Name()
+			nStores++
+			if iv == nil || normCopy(ig.up(idx)) != iv {
+				okIdx = false
 			}
 		})
 	}
-	c.verdict(reassigned == "", rule, "containers-not-reassigned", c.pos(clo.Pos()), "item goroutines only store elements into the shared result containers", "an item goroutine reassigns the shared container "+reassigned+" (e.g. append): results land in completion order, and concurrent appends lose results")
-	c.verdict(okIdx && idxFV != nil && nStores >= 2, rule, "stores-by-index", c.pos(clo.Pos()), fmt.Sprintf("all %d result/error stores use the captured loop index", nStores), "a per-item result is stored under something else than the item's own index: results are no longer in item order")
-	c.verdict(itemFV != nil, rule, "executes-own-item", c.instrPos(exec), "the sub-run gets the captured item as input", "the sub-run's input is not the captured item of this iteration")
-	// same iteration: cells bound to idxFV and itemFV are stored from idx and data[idx] of one loop
-	if idxFV != nil && itemFV != nil {
-		idxCell, _ := bindingOf(mc, idxFV).(*ssa.Alloc)
-		itemCell, _ := bindingOf(mc, itemFV).(*ssa.Alloc)
-		same := false
-		if idxCell != nil && itemCell != nil {
-			var idxVal, itemVal ssa.Value
-			eachInstr(parent, func(r instrRef) {
-				if st, ok := r.I.(*ssa.Store); ok {
-					if st.Addr == ssa.Value(idxCell) {
-						idxVal = st.Val
-					}
-					if st.Addr == ssa.Value(itemCell) {
-						itemVal = st.Val
-					}
-				}
-			})
-			// itemVal = *(&data[idxVal']) where idxVal' is the same loop index as idxVal (through per-iteration copies)
-			rootIdx := func(v ssa.Value) ssa.Value {
-				for i := 0; i < 4; i++ {
-					if u, ok := v.(*ssa.UnOp); ok && u.Op == token.MUL {
-						if al, ok := u.X.(*ssa.Alloc); ok && al.Referrers() != nil {
-							for _, ref := range *al.Referrers() {
-								if st, ok := ref.(*ssa.Store); ok && st.Addr == ssa.Value(al) {
-									v = st.Val
-								}
-							}
-							continue
-						}
-					}
-					break
-				}
-				return v
+	c.verdict(okIdx && nStores >= 2, rule, "stores-by-index", c.pos(body.Pos()), fmt.Sprintf("all %d result/error stores use the index of the item that was executed", nStores), "a per-item result is stored under something else than the item's own index: results are no longer in item order, or are filed under another item's position")
+	// the shared containers are never reassigned by the item goroutines (no append / replacement)
+	reassigned := ""
+	for _, f := range ig.fns(c) {
+		for _, fv := range f.FreeVars {
+			el := fv.Type().(*types.Pointer).Elem().Underlying()
+			_, isSlice := el.(*types.Slice)
+			_, isMap := el.(*types.Map)
+			if !isSlice && !isMap {
+				continue
 			}
-			iv := rootIdx(idxVal)
-			tv := rootIdx(itemVal)
-			if u, ok := tv.(*ssa.UnOp); ok {
-				if ia, ok := u.X.(*ssa.IndexAddr); ok && rootIdx(ia.Index) == iv {
-					same = true
+			eachInstr(f, func(r instrRef) {
+				if st, ok := r.I.(*ssa.Store); ok && st.Addr == ssa.Value(fv) {
+					reassigned = fv.Name()
 				}
+			})
+		}
+	}
+	c.verdict(reassigned == "", rule, "containers-not-reassigned", c.pos(body.Pos()), "item goroutines only store elements into the shared result containers", "an item goroutine reassigns the shared container "+reassigned+" (e.g. append): results land in completion order, and concurrent appends lose results")
+	// slice made with len(items); no append
+	okMake := false
+	if ms, ok := outSlice.(*ssa.MakeSlice); ok {
+		if call, ok := ms.Len.(*ssa.Call); ok && isBuiltinCall(call, "len") {
+			okMake = true
+		}
+	}
+	noAppend := true
+	for _, f := range append([]*ssa.Function{ig.parent}, ig.fns(c)...) {
+		eachInstr(f, func(r instrRef) {
+			if isBuiltinCall(r.I, "append") {
+				noAppend = false
 			}
-		}
-		c.verdict(same, rule, "index-and-item-of-one-iteration", c.pos(parent.Pos()), "the captured index and the captured item come from the same range iteration", "the captured index and the captured item do not belong to the same iteration: an item's result would be filed under another item's position")
+		})
 	}
-	// slice made with len(items); no append on it
-	if outFV != nil {
-		cell, _ := bindingOf(mc, outFV).(*ssa.Alloc)
-		okMake := false
-		if cell != nil {
-			eachInstr(parent, func(r instrRef) {
-				if st, ok := r.I.(*ssa.Store); ok && st.Addr == ssa.Value(cell) {
-					if ms, ok := st.Val.(*ssa.MakeSlice); ok {
-						if call, ok := ms.Len.(*ssa.Call); ok && isBuiltinCall(call, "len") {
-							okMake = true
-						}
-					} else {
-						okMake = false
-					}
-				}
-			})
-		}
-		noAppend := true
-		for _, fn := range []*ssa.Function{parent, clo} {
-			eachInstr(fn, func(r instrRef) {
-				if isBuiltinCall(r.I, "append") {
-					noAppend = false
-				}
-			})
-		}
-		c.verdict(okMake && noAppend, rule, "slice-preallocated", c.pos(parent.Pos()), "the result slice is made with len(items) and never appended to", fmt.Sprintf("the result slice is not a fixed-length slice addressed by index (made-with-len=%v, no-append=%v): arrival order would leak into the result", okMake, noAppend))
-	}
-	_ = errFV
+	c.verdict(okMake && noAppend, rule, "slice-preallocated", c.pos(ig.parent.Pos()), "the result slice is made with len(items) and never appended to", fmt.Sprintf("the result slice is not a fixed-length slice addressed by index (made-with-len=%v, no-append=%v): arrival order would leak into the result", okMake, noAppend))
 }
 
 // C13.R2 bounded parallelism.
 func c13R2(c *Ctx) {
 	const rule = "C13.R2"
 	c.explain("C13.R2 the semaphore is make(chan struct{}, input.parallelism) of the received input; in the per-item goroutine the sub-run is dominated by the successful send on it (the ctx.Done case returns) and the receive that releases it is deferred; parallelism comes from the validated parallelism input or the default 1")
-	parent, clo, _, mc := c.foreachItemClosure()
-	if clo == nil {
+	ig := c.foreachItemGo()
+	if ig == nil {
 		return
 	}
+	body := ig.body
 	parF := c.field(pkgForeach, "executeInput", "parallelism")
-	// semaphore cell
-	var semFV *ssa.FreeVar
+	// the acquisition: a select with a send case on a channel made by the spawner
+	var sem *ssa.MakeChan
 	var sel *ssa.Select
-	eachInstr(clo, func(r instrRef) {
-		if s, ok := r.I.(*ssa.Select); ok {
-			for _, st := range s.States {
-				if st.Dir == types.SendOnly {
-					for _, fv := range clo.FreeVars {
-						if loadOfFreeVar(st.Chan, fv) {
-							semFV = fv
-							sel = s
+	for _, f := range ig.fns(c) {
+		eachInstr(f, func(r instrRef) {
+			if s, ok := r.I.(*ssa.Select); ok {
+				for _, st := range s.States {
+					if st.Dir == types.SendOnly {
+						if mch, ok := ig.up(st.Chan).(*ssa.MakeChan); ok {
+							sem, sel = mch, s
 						}
 					}
 				}
 			}
-		}
-	})
-	if semFV == nil {
-		c.bad(rule, "acquire", c.pos(clo.Pos()), "the per-item goroutine does not acquire a semaphore: all items run at once regardless of `parallelism`")
+		})
+	}
+	if sem == nil {
+		c.bad(rule, "acquire", c.pos(body.Pos()), "the per-item goroutine does not acquire a semaphore: all items run at once regardless of `parallelism`")
 		return
 	}
-	cell, _ := bindingOf(mc, semFV).(*ssa.Alloc)
-	capOK := false
-	if cell != nil {
-		eachInstr(parent, func(r instrRef) {
-			if st, ok := r.I.(*ssa.Store); ok && st.Addr == ssa.Value(cell) {
-				if mch, ok := st.Val.(*ssa.MakeChan); ok {
-					capOK = derivesFrom(mch.Size, func(v ssa.Value) bool { return loadedField(v) == parF })
-				}
+	capOK := derivesFrom(sem.Size, func(v ssa.Value) bool { return loadedField(v) == parF })
+	c.verdict(capOK, rule, "capacity", c.pos(ig.parent.Pos()), "semaphore capacity is the received parallelism", "the semaphore's capacity is not the `parallelism` of the received input: the bound on concurrent sub-runs is wrong")
+	// Execute dominated by the send case
+	var exec *ssa.Call
+	for _, f := range ig.fns(c) {
+		eachInstr(f, func(r instrRef) {
+			if call, ok := r.I.(*ssa.Call); ok && call.Common().IsInvoke() && call.Common().Method.Name() == "Execute" {
+				exec = call
 			}
 		})
 	}
-	c.verdict(capOK, rule, "capacity", c.pos(parent.Pos()), "semaphore capacity is the received parallelism", "the semaphore's capacity is not the `parallelism` of the received input: the bound on concurrent sub-runs is wrong")
-	// Execute dominated by the send case
-	var exec *ssa.Call
-	eachInstr(clo, func(r instrRef) {
-		if call, ok := r.I.(*ssa.Call); ok && call.Common().IsInvoke() && call.Common().Method.Name() == "Execute" {
-			exec = call
-		}
-	})
 	sendIdx := -1
 	for i, st := range sel.States {
 		if st.Dir == types.SendOnly {
@@ -298,41 +335,41 @@ func c13R2(c *Ctx) {
 			n, isC := constInt(b.Y)
 			return ok && ex.Tuple == ssa.Value(sel) && ex.Index == 0 && isC && int(n) == sendIdx
 		}) != nil
-		if !acquired {
-			// the other case returns: Execute is only reachable through the send case
-			p := c.findPath(clo, sel, func(in ssa.Instruction) bool { return false }, func(in ssa.Instruction) bool { return in == ssa.Instruction(exec) })
-			_ = p
-		}
 	}
 	c.verdict(acquired, rule, "acquire-before-run", c.instrPos(sel), "the sub-run starts only after the semaphore was acquired", "the sub-run can start without holding a semaphore slot: more than `parallelism` sub-workflows run at a time")
-	// deferred release
+	// deferred release: a receive on the same channel in a function that the goroutine body defers
 	released := false
-	eachInstr(clo, func(r instrRef) {
+	isSemRecv := func(in ssa.Instruction) bool {
+		if s, ok := in.(*ssa.Select); ok {
+			for _, st := range s.States {
+				if st.Dir == types.RecvOnly && ig.up(st.Chan) == ssa.Value(sem) {
+					return true
+				}
+			}
+		}
+		if u, ok := in.(*ssa.UnOp); ok && u.Op == token.ARROW && ig.up(u.X) == ssa.Value(sem) {
+			return true
+		}
+		return false
+	}
+	eachInstr(body, func(r instrRef) {
 		d, ok := r.I.(*ssa.Defer)
 		if !ok {
 			return
 		}
-		if m, ok := d.Call.Value.(*ssa.MakeClosure); ok {
-			inner := m.Fn.(*ssa.Function)
+		for _, inner := range c.CG().Callees(d) {
 			eachInstr(inner, func(r2 instrRef) {
-				if s, ok := r2.I.(*ssa.Select); ok {
-					for _, st := range s.States {
-						if st.Dir == types.RecvOnly && strings.Contains(c.classifyChan(st.Chan).Name, "sem") {
-							released = true
-						}
-					}
-				}
-				if u, ok := r2.I.(*ssa.UnOp); ok && u.Op == token.ARROW && strings.Contains(c.classifyChan(u.X).Name, "sem") {
+				if isSemRecv(r2.I) {
 					released = true
 				}
 			})
 		}
 	})
-	c.verdict(released, rule, "deferred-release", c.pos(clo.Pos()), "the slot is released by a deferred receive", "the semaphore slot is not released on every exit of the item goroutine: later items never start")
+	c.verdict(released, rule, "deferred-release", c.pos(body.Pos()), "the slot is released by a deferred receive", "the semaphore slot is not released on every exit of the item goroutine: later items never start")
 	// parallelism source in ProvideStageInput
 	if fn := c.Fn("(*foreach.runningStep).ProvideStageInput"); fn != nil {
 		okSrc := false
-		eachInstr(fn, func(r instrRef) {
+		c.eachInstrLogical(fn, func(r instrRef) {
 			st, ok := r.I.(*ssa.Store)
 			if !ok {
 				return
@@ -380,19 +417,27 @@ func c13R3(c *Ctx) {
 	}
 	// the branch
 	var branch *ssa.If
+	nonEmptyIdx := 0
 	eachInstr(fn, func(r instrRef) {
 		ifi, ok := r.I.(*ssa.If)
 		if !ok {
 			return
 		}
 		b, ok := ifi.Cond.(*ssa.BinOp)
-		if !ok || b.Op != token.GTR {
+		if !ok {
 			return
 		}
 		l, ok := b.X.(*ssa.Call)
 		n, isC := constInt(b.Y)
-		if ok && isBuiltinCall(l, "len") && derivesFrom(l.Call.Args[0], isRes(1)) && isC && n == 0 {
-			branch = ifi
+		if !ok || !isBuiltinCall(l, "len") || !derivesFrom(l.Call.Args[0], isRes(1)) || !isC {
+			return
+		}
+		// any spelling of "the error map is (not) empty"
+		switch {
+		case (b.Op == token.GTR && n == 0) || (b.Op == token.NEQ && n == 0) || (b.Op == token.GEQ && n == 1):
+			branch, nonEmptyIdx = ifi, 0
+		case (b.Op == token.EQL && n == 0) || (b.Op == token.LEQ && n == 0) || (b.Op == token.LSS && n == 1):
+			branch, nonEmptyIdx = ifi, 1
 		}
 	})
 	c.verdict(branch != nil, rule, "branch-on-errors", c.pos(fn.Pos()), "failure is reported exactly when the error map is non-empty", "processInput does not branch on len(errors) > 0 of the sub-runs' error map")
@@ -421,8 +466,8 @@ func c13R3(c *Ctx) {
 	})
 	var okErr, okSucc bool
 	for _, l := range lits {
-		onTrue := branch.Block().Succs[0] == l.blk || branch.Block().Succs[0].Dominates(l.blk)
-		onFalse := branch.Block().Succs[1] == l.blk || branch.Block().Succs[1].Dominates(l.blk)
+		onTrue := branch.Block().Succs[nonEmptyIdx] == l.blk || branch.Block().Succs[nonEmptyIdx].Dominates(l.blk)
+		onFalse := branch.Block().Succs[1-nonEmptyIdx] == l.blk || branch.Block().Succs[1-nonEmptyIdx].Dominates(l.blk)
 		if onTrue {
 			msgs, hasM := l.keys["messages"]
 			data, hasD := l.keys["data"]
@@ -475,9 +520,14 @@ func c13R4(c *Ctx) {
 		return
 	}
 	li := loopOver(fn, func(v ssa.Value) bool { return false })
-	// the validation loop: the one containing the Unserialize invoke on workflow.Input()
+	// the validation loop: the one containing the Unserialize invoke on workflow.Input() — in ProvideStageInput itself
+	// or in a helper extracted from it
 	var unser *ssa.Call
-	for _, l := range loopsOf(fn) {
+	var allLoops []*loopInfo
+	for _, g := range c.logicalBody(fn) {
+		allLoops = append(allLoops, loopsOf(g)...)
+	}
+	for _, l := range allLoops {
 		for b := range l.Blocks {
 			for _, in := range b.Instrs {
 				if call, ok := in.(*ssa.Call); ok && call.Common().IsInvoke() && call.Common().Method.Name() == "Unserialize" {
@@ -497,18 +547,37 @@ func c13R4(c *Ctx) {
 		return
 	}
 	okc, p := c.errorPropagated(unser)
+	for cur := unser.Parent(); okc && cur != fn; {
+		up, isCall := ownerSite[cur].(*ssa.Call)
+		if !isCall {
+			okc = false
+			break
+		}
+		okc, p = c.errorPropagated(up)
+		cur = up.Parent()
+	}
 	c.verdict(okc, rule, "validate-loop", c.instrPos(unser), "an invalid item is refused with an error", "an item that fails validation is not refused", p...)
 	// every iteration validates
 	skip := c.iterationSkips(li, func(in ssa.Instruction) bool { return in == ssa.Instruction(unser) })
 	c.verdict(skip == nil, rule, "every-item", c.blockPos(li.Header), "every item is validated", "an item can skip validation", skip...)
 	// the send is after the loop
 	var send ssa.Instruction
-	for _, op := range c.chanOps(fn) {
-		if op.Kind == "send" && op.Ch.Field != nil && fieldName(op.Ch.Field) == "executeInput" {
-			send = op.In
+	for _, g := range c.logicalBody(fn) {
+		for _, op := range c.chanOps(g) {
+			if op.Kind == "send" && op.Ch.Field != nil && fieldName(op.Ch.Field) == "executeInput" {
+				send = op.In
+			}
 		}
 	}
-	after := send != nil && !li.Blocks[send.Block()] && c.reachableFrom(li.Header.Instrs[0], send)
+	after := false
+	if send != nil {
+		if send.Parent() == li.Header.Parent() {
+			after = !li.Blocks[send.Block()] && c.reachableFrom(li.Header.Instrs[0], send)
+		} else if site := liftTo(li.Header.Instrs[0], send.Parent()); site != nil {
+			// the loop lives in a helper that is called before the send
+			after = dominates(site, send)
+		}
+	}
 	// the data sent is the slice filled in the loop with the validated items at the loop index
 	sameItems := false
 	if s, ok := send.(*ssa.Send); ok {
